@@ -624,3 +624,71 @@ func zzC02Prevalidation() {
 	vAssert(env.hangs == 0 && len(c.requestStreams) == 0, "C02.invalid-request-registers-nothing")
 	vReach("end")
 }
+
+// ---------------------------------------------------------------- C08: the server closes a request's SSE stream (polling mode)
+//
+// CloseSSEStream ends the current exchange so that the client reconnects. The client may reconnect at once — before the
+// handler of the old exchange has returned and released the stream — or later. Either way: once a resume is accepted,
+// everything written afterwards reaches that exchange, in order, with consecutive ids, up to the final response; a
+// resume that comes too early may be refused (409) and succeeds when retried after the release.
+func zzC08ServerClose() {
+	env := &zzSrvEnv{streamNames: []string{"st1"}}
+	zzSrv8 = env
+	store := &zzAtomicStore{EventStore: NewMemoryEventStore(nil)}
+	c := zzConnect(store, false, false)
+	store.c = c
+	version := protocolVersion20250618
+	if vBool("priming") {
+		version = protocolVersion20251125
+	}
+	call := zzCall(1, "tools/call")
+	post := zzNewExch("post")
+	st := &stream{id: "st1", requests: map[jsonrpc.ID]struct{}{call.ID: {}}, lastIdx: -1, w: post, done: make(chan struct{}), protocolVersion: version}
+	c.streams["st1"] = st
+	c.requestStreams[call.ID] = "st1"
+	wctx := context.WithValue(context.WithValue(context.Background(), idContextKey{}, call.ID), protocolVersionContextKey{}, version)
+	var written []jsonrpc.Message
+	write := func(final bool) {
+		var m jsonrpc.Message = &jsonrpc.Request{Method: "notifications/progress", Params: vJSON(len(written))}
+		if final {
+			m = &jsonrpc.Response{ID: call.ID, Result: vJSON("result")}
+		}
+		env.inWrite = true
+		err := c.Write(wctx, m)
+		env.inWrite = false
+		vAssert(err == nil, "C08.write-accepted")
+		written = append(written, m)
+	}
+	write(false) // delivered on the POST exchange as st1_0
+	vAssert(len(post.events) == 1 && post.events[0].id == formatEventID("st1", 0), "C08.live-delivery-with-stable-id")
+
+	st.close(0) // the server ends the exchange; the old handler has not returned yet
+
+	var attached *zzExch
+	if vBool("clientResumesBeforeTheOldHandlerReturned") {
+		early := zzNewExch("early")
+		if s2, _ := c.acquireStream(context.Background(), early, "st1", 0, version); s2 != nil {
+			attached = early
+			vReach("early-accepted")
+		} else {
+			vAssert(early.code == http.StatusConflict, "C08.early-resume-refused-with-409")
+			vReach("early-refused")
+		}
+	}
+	st.release() // the old handler returns
+	if attached == nil {
+		get := zzNewExch("get")
+		s2, _ := c.acquireStream(context.Background(), get, "st1", 0, version)
+		vAssert(s2 != nil, "C08.resume-after-release-accepted")
+		attached = get
+	}
+	write(false)
+	write(true)
+	// the accepted exchange receives exactly what was written after the cursor, in order, ids consecutive
+	vAssert(len(attached.events) == 2, "C08.resumed-exchange-receives-everything-after-the-cursor")
+	for i, e := range attached.events {
+		vAssert(e.id == formatEventID("st1", 1+i), "C08.stable-consecutive-ids")
+		vAssert(zzSameMsg(e.data, written[1+i]), "C08.resumed-exchange-receives-everything-after-the-cursor")
+	}
+	vReach("end")
+}
